@@ -319,6 +319,8 @@ pub fn check_faulted(scn: &Scenario, o0: &Outcome, o: &Outcome) -> Option<Violat
                 // kernel-level faults on the target are only met by accepted sources
                 Fault::TargetIsDir | Fault::TargetDevFull => accepted,
                 Fault::MalformedBase => accepted && scn.with_base,
+                // a source the fault-free run never opens cannot make the run fail
+                Fault::SourceIsDir(p) | Fault::NonUtf8(p) => o0.trace.iter().any(|l| l.starts_with(&format!("open {p} "))),
                 _ => true,
             };
             if reached && o.exit == Some(0) {
@@ -428,6 +430,8 @@ pub fn check_lsp(world: &World, scn: &Scenario, o0: &Outcome) -> (Option<Violati
 }
 
 pub struct Checked {
+    /// true when the violation was raised by the faulted execution
+    pub under_fault: bool,
     pub violation: Option<Violation>,
     pub o0: Outcome,
     pub o1: Option<Outcome>,
@@ -449,12 +453,14 @@ pub fn run_scenario(c: &Cfg, world: &World, scn: &Scenario) -> Checked {
         diags = n;
     }
     let mut o1 = None;
+    let mut under_fault = false;
     if violation.is_none() && scn.fault != Fault::None {
         let o = execute(c, world, scn);
         violation = check_faulted(scn, &o0, &o);
+        under_fault = violation.is_some();
         o1 = Some(o);
     }
-    Checked { violation, o0, o1, diags }
+    Checked { under_fault, violation, o0, o1, diags }
 }
 
 fn gen_fault(scn: &Scenario, o0: &Outcome, rng: &mut Rng) -> Fault {
@@ -484,7 +490,11 @@ fn gen_fault(scn: &Scenario, o0: &Outcome, rng: &mut Rng) -> Fault {
         let i = *rng.pick(&idx);
         Some((calls[i].1.clone(), nth(op, &calls[i].1, i)))
     };
-    let sources: Vec<String> = scn.files.keys().cloned().collect();
+    // only files the fault-free run actually reads can carry a fault that matters
+    let sources: Vec<String> = scn.files.keys().filter(|p| calls.iter().any(|(o, q)| o == "open" && q == *p)).cloned().collect();
+    if sources.is_empty() {
+        return Fault::None;
+    }
     match rng.below(12) {
         0 | 1 => {
             if let Some((p, n)) = pick_call("read", rng, Some(false)) {
@@ -585,12 +595,13 @@ fn fault_kind(f: &Fault) -> Option<String> {
     )
 }
 
-fn signature(scn: &Scenario, vi: &Violation) -> String {
+fn signature(scn: &Scenario, vi: &Violation, under_fault: bool) -> String {
     let phase = match reference(scn) {
         Ok(_) => "accepted".to_string(),
         Err((p, _)) => format!("{p:?}"),
     };
-    format!("C13 {} sources={phase} fault={}", vi.oracle, fault_kind(&scn.fault).unwrap_or_else(|| "none".into()))
+    let fault = if under_fault { fault_kind(&scn.fault).unwrap_or_else(|| "none".into()) } else { "none".into() };
+    format!("C13 {} sources={phase} fault={fault}", vi.oracle)
 }
 
 pub fn run(seed: u64, run: u64) -> Report {
@@ -627,6 +638,11 @@ pub fn run(seed: u64, run: u64) -> Report {
         probes.push(format!("error_{phase}"));
     } else {
         probes.push("accepted_sources".into());
+    }
+    if sr.chance(1, 2) {
+        // a document of the directory that is not part of the program
+        files.insert("scratch.oal".into(), "let unrelated = num;\n".into());
+        probes.push("unrelated_document_present".into());
     }
     let paths: Vec<String> = files.keys().cloned().collect();
     let mut lsp = Vec::new();
@@ -680,11 +696,16 @@ pub fn run(seed: u64, run: u64) -> Report {
         probes.push("wasm_compared".into());
     }
     let violation = chk.violation.as_ref().map(|vi| {
-        let sig = signature(&scn, vi);
-        let min = minimise(&c, &world, &scn, &sig);
-        let vi2 = run_scenario(&c, &world, &min).violation.unwrap_or_else(|| vi.clone());
+        let sig = signature(&scn, vi, chk.under_fault);
+        let mut start = scn.clone();
+        if !chk.under_fault {
+            start.fault = Fault::None;
+        }
+        let min = minimise(&c, &world, &start, &sig);
+        let chk2 = run_scenario(&c, &world, &min);
+        let vi2 = chk2.violation.clone().unwrap_or_else(|| vi.clone());
         Found {
-            signature: signature(&min, &vi2),
+            signature: signature(&min, &vi2, chk2.under_fault),
             oracle: vi2.oracle,
             detail: vi2.detail,
             scenario: json!({ "scenario": min }),
@@ -721,7 +742,10 @@ pub fn run(seed: u64, run: u64) -> Report {
 }
 
 fn minimise(c: &Cfg, world: &World, scn: &Scenario, sig: &str) -> Scenario {
-    let fails = |s: &Scenario| matches!(run_scenario(c, world, s).violation, Some(vi) if signature(s, &vi) == sig);
+    let fails = |s: &Scenario| {
+        let r = run_scenario(c, world, s);
+        matches!(&r.violation, Some(vi) if signature(s, vi, r.under_fault) == sig)
+    };
     let mut cur = scn.clone();
     // simpler configuration first
     for f in [
@@ -779,8 +803,9 @@ pub fn replay(doc: &serde_json::Value) -> Result<Option<Found>, String> {
     let c = cfg().ok_or("real binaries not built")?;
     let world = World::new();
     let chk = run_scenario(&c, &world, &scn);
+    let uf = chk.under_fault;
     Ok(chk.violation.map(|vi| Found {
-        signature: signature(&scn, &vi),
+        signature: signature(&scn, &vi, uf),
         oracle: vi.oracle,
         detail: vi.detail,
         scenario: doc.clone(),
